@@ -8,6 +8,9 @@ Model side: `TornadoModel.C02.run` (driver `C02 run`).  Oracle: `TornadoModel.C0
 """
 import hashlib, itertools, logging, re
 from core.wire import atom, line, parse_reply, Atom
+# imported here (not inside run_impl) so that forked workers inherit the loaded modules
+from core import vloop, faketransport
+import tornado.web, tornado.httpserver  # noqa: E401  (from $VERIF_REPO, see harness/main.py)
 
 ID = "C02"
 LEAN_TARGETS = ["TornadoModel.C02.Props"]
@@ -36,7 +39,7 @@ ERROR_PAGE = (b"<html><title>500: Internal Server Error</title>"
               b"<body>500: Internal Server Error</body></html>")
 PATTERNS = [b"a", b"xyz", b"\r\n", b"0\r\n\r\n", b"\x00\xff\x80", b"HTTP/1.1 200 OK\r\nContent-Length: 0\r\n\r\n",
             b"5\r\nhello\r\n", b"\n", b"\r", b"1\r\n"]
-SIZES = [0, 1, 2, 15, 16, 17, 255, 256, 1023, 1024, 1025, 4096]
+SIZES = [0, 1, 2, 15, 16, 17, 255, 256, 257, 1023, 1024, 1025, 4095, 4096, 4097]
 STATUSES = [200, 200, 200, 200, 201, 204, 304, 404, 500, 101, 100, 599]
 H_NAMES = ["Content-Type", "content-type", "X-Foo", "x-foo", "X-FOO", "Etag", "Content-Encoding", "Content-Language",
            "Vary", "Cache-Control", "X-Multi"]
@@ -59,7 +62,16 @@ def chunk_bytes(c):
 
 def _rand_chunk(rng):
     k = rng.random()
-    n = rng.choice(SIZES) if k < 0.7 else rng.randint(0, 40)
+    if k < 0.52:
+        n = rng.choice(SIZES[:6])
+    elif k < 0.64:
+        n = rng.choice(SIZES[6:9])
+    elif k < 0.68:
+        n = rng.choice(SIZES[9:12])
+    elif k < 0.70:
+        n = rng.choice(SIZES[12:])
+    else:
+        n = rng.randint(0, 40)
     return [rng.choice(PATTERNS).hex() if rng.random() < 0.85 else bytes(rng.randrange(256) for _ in range(3)).hex(), n]
 
 
@@ -81,10 +93,10 @@ def _rand_prog(rng, maxops=8):
                         rng.choice(H_VALUES) if rng.random() < 0.93 else rng.choice(H_BAD)])
         elif k < 0.86:
             ops.append(["clear", rng.choice(H_NAMES + ["Content-Length"])])
-        elif k < 0.94:
+        elif k < 0.96:
             ops.append(["finish", _rand_chunk(rng) if rng.random() < 0.5 else None])
         else:
-            ops.append(["write", [rng.choice(PATTERNS).hex(), rng.choice([1023, 1024, 1025, 4096])]])
+            ops.append(["write", [rng.choice(PATTERNS).hex(), rng.choice([255, 256, 255, 256, 1023, 1024, 1025, 4096])]])
     # an explicit Content-Length: correct / short / long, placed before the first flush or anywhere
     if rng.random() < 0.3:
         total = len(body_of(ops))
@@ -132,7 +144,7 @@ def _enum(maxlen, reqs):
 
 
 def gen_cases(rng, tier, compress=False):
-    n_prog = {"quick": 1400, "thorough": 12000, "search": 1500}[tier]
+    n_prog = {"quick": 1000, "thorough": 12000, "search": 1500}[tier]
     if tier == "quick":
         yield from _enum(2, SMALL_REQS)
         yield from _enum(3, SMALL_REQS[:2])
@@ -192,7 +204,6 @@ def normalise(wire):
 
 def serve(case, compress=False, extra_headers=(), tape=None):
     """-> (raw bytes written by the server, stream closed?)"""
-    from core import vloop, faketransport
     from tornado.web import Application, RequestHandler, GZipContentEncoding
     from tornado.httpserver import HTTPServer
     logging.disable(logging.CRITICAL)
@@ -273,6 +284,8 @@ def enc_prog(prog):
 
 
 def model_requests(case, impl):
+    if "harness_exc" in impl:
+        return []
     return [line(ID, "run", enc_req(case), enc_prog(case["prog"]))]
 
 
@@ -288,6 +301,8 @@ def impl_view(case, impl):
 
 # ------------------------------------------------------------------------------------------- oracle
 def spec_requests(case, impl):
+    if "harness_exc" in impl:
+        return []
     return [line(ID, "parse", atom(case["req"]["method"] == "HEAD"), bytes.fromhex(impl["wire"]), atom(bool(impl["closed"])))]
 
 
@@ -382,6 +397,8 @@ def spec_violation(case, impl, replies, vary_ok=None, decode=None):
     if not ok_status:
         return "status: got %d, the handler set %d" % (p["status"], want["status"])
     want_body = b"" if head or NOBODY(p["status"]) else want["body"]
+    if cl_mismatch and len(body) < len(want_body) and want_body.startswith(body) and explicit_cl == [str(len(body))]:
+        return None          # the handler's own Content-Length is shorter than what it wrote: the client gets that prefix
     if body != want_body:
         return "body: %d bytes delivered, %d bytes written (first difference at %d)" % (
             len(body), len(want_body), next((i for i, (a, b) in enumerate(zip(body, want_body)) if a != b), min(len(body), len(want_body))))
